@@ -3,7 +3,7 @@
 cd /verif
 related() {
   case $1 in
-    C01) echo "C01 C09";; C02) echo "C02 C09";; C03) echo "C03 C10 C12";; C04) echo "C04 C09 C12 C10";; C05) echo "C05";;
+    C01) echo "C01 C09 C02";; C02) echo "C02 C09";; C03) echo "C03 C10 C12";; C04) echo "C04 C09 C12 C10";; C05) echo "C05";;
     C06) echo "C06";; C07) echo "C07";; C08) echo "C08 C01 C02";; C09) echo "C09 C01 C02";; C10) echo "C10 C12 C03";;
     C11) echo "C11 C10";; C12) echo "C12 C10";; C13) echo "C13";; C14) echo "C14";; C15) echo "C15 C07";;
     C16) echo "C16";; C17) echo "C17";; C18) echo "C18";;
